@@ -294,8 +294,10 @@ impl C03 {
                 // M6b: count/last/nth/skip/step_by/size_hint agree with the next() sequence
                 let key = |t: &multiboot2_common::DynSizedStructure<multiboot2::TagHeader>| (t as *const _ as *const u8 as usize, core::mem::size_of_val(t));
                 crate::iterproto::check(ctx, "tags", &|| bi.tags(), &key, 4096, true);
+                crate::iterproto::check_clone(ctx, "tags", &|| bi.tags(), &key, 4096);
                 if exp.iter().all(|t| t.word0 != 3 || t.size >= 16) {
                     crate::iterproto::check(ctx, "module_tags", &|| bi.module_tags(), &|m: &multiboot2::ModuleTag| (m as *const _ as *const u8 as usize, core::mem::size_of_val(m)), 4096, true);
+                    crate::iterproto::check_clone(ctx, "module_tags", &|| bi.module_tags(), &|m: &multiboot2::ModuleTag| (m as *const _ as *const u8 as usize, core::mem::size_of_val(m)), 4096);
                 }
             }
             // module iterator = the type-3 sub-sequence, by address
@@ -313,6 +315,7 @@ impl C03 {
             if ok && end == WalkEnd::Complete {
                 let key = |t: &multiboot2_common::DynSizedStructure<multiboot2::TagHeader>| (t as *const _ as *const u8 as usize, core::mem::size_of_val(t));
                 crate::iterproto::check(ctx, "TagIter", &|| TagIter::new(sl), &key, 4096, true);
+                crate::iterproto::check_clone(ctx, "TagIter", &|| TagIter::new(sl), &key, 4096);
             }
             self.note(ctx, &exp, end, area_bytes, label);
         }
